@@ -39,15 +39,12 @@ pub mod edwards {
     #[derive(Clone, Copy, PartialEq, Eq)]
     pub struct EdwardsPoint {
         pub(crate) enc: [u8; 32],
-        /// set when the point was obtained from a Montgomery u-coordinate (`to_edwards`): mapping it back
-        /// gives the canonical form of that coordinate (the birational map is a bijection on points)
-        pub(crate) mont: Option<[u8; 32]>,
     }
     #[derive(Clone, Copy, PartialEq, Eq)]
     pub struct CompressedEdwardsY(pub [u8; 32]);
     impl CompressedEdwardsY {
         pub fn decompress(&self) -> Option<EdwardsPoint> {
-            if super::valid_encoding(&self.0) { Some(EdwardsPoint { enc: self.0, mont: None }) } else { None }
+            if super::valid_encoding(&self.0) { Some(EdwardsPoint { enc: self.0 }) } else { None }
         }
         pub fn as_bytes(&self) -> &[u8; 32] {
             &self.0
@@ -56,23 +53,16 @@ pub mod edwards {
     impl EdwardsPoint {
         pub fn mul_base(s: &Scalar) -> EdwardsPoint {
             let enc = super::public_of(&s.bytes);
-            EdwardsPoint { enc, mont: None }
+            EdwardsPoint { enc }
         }
         pub fn compress(&self) -> CompressedEdwardsY {
             CompressedEdwardsY(self.enc)
         }
         pub fn to_montgomery(&self) -> super::montgomery::MontgomeryPoint {
-            if let Some(m) = self.mont {
-                return super::montgomery::MontgomeryPoint(m);
-            }
             let o = oracle(D_TO_MONT, &Transcript::of(&[&self.enc]));
             let mut b = [0u8; 32];
             b.copy_from_slice(&o[..32]);
             super::montgomery::MontgomeryPoint(b)
-        }
-        /// uninterpreted predicate of the point
-        pub fn is_small_order(&self) -> bool {
-            vmodel::predicate(D_TO_MONT, &Transcript::of(&[&self.enc, b"small-order"]))
         }
     }
 }
@@ -101,27 +91,9 @@ pub mod montgomery {
         pub fn to_bytes(&self) -> [u8; 32] {
             self.0
         }
-        /// the canonical encoding of the u-coordinate: X25519 ignores bit 255 (RFC 7748)
-        pub(crate) fn canonical(&self) -> [u8; 32] {
-            let mut c = self.0;
-            c[31] &= 0x7f;
-            c
-        }
-        /// birational map to the Edwards curve; `None` stands for "not on the curve" (uninterpreted)
-        pub fn to_edwards(&self, _sign: u8) -> Option<EdwardsPoint> {
-            let c = self.canonical();
-            let o = oracle(D_TO_MONT, &Transcript::of(&[&c, b"to-edwards"]));
-            if o[63] & 1 == 1 {
-                return None;
-            }
-            let mut enc = [0u8; 32];
-            enc.copy_from_slice(&o[..32]);
-            Some(EdwardsPoint { enc, mont: Some(c) })
-        }
     }
     fn dh(s: &Scalar, p: &MontgomeryPoint) -> MontgomeryPoint {
         let a = EdwardsPoint::mul_base(s).to_montgomery();
-        let p = &MontgomeryPoint(p.canonical());
         // unordered pair {A, P}
         let mut a_first = true;
         let mut decided = false;
